@@ -122,7 +122,7 @@ theorem log_step {adj nar : Dir → Dir → Dir} (hn : ∀ d l, legal d (nar d l
     cases s.trs[i]? with
     | none => exact h
     | some t => exact h
-  | remoteOffer secs => simp only [stepWith]; split <;> exact h
+  | remoteOffer secs => simp only [stepWith]; split <;> (try split) <;> exact h
   | setLocalAnswer =>
     simp only [stepWith]
     cases s.lastAnswer with
@@ -133,7 +133,7 @@ theorem log_step {adj nar : Dir → Dir → Dir} (hn : ∀ d l, legal d (nar d l
     split
     · split <;> exact h
     · exact h
-  | remoteAnswer secs => simp only [stepWith]; split <;> exact h
+  | remoteAnswer secs => simp only [stepWith]; split <;> (try split) <;> exact h
   | setSender i =>
     simp only [stepWith]
     cases s.trs[i]? with
@@ -235,6 +235,8 @@ theorem good_step {adj nar : Dir → Dir → Dir} (hadj : AdjOK adj) (hn : ∀ d
       exact fun x hx => hx
   | remoteOffer secs =>
     simp only [stepWith]
+    split
+    · exact hg
     by_cases hs : s.sig = .stable
     · rw [if_pos hs]
       have hd : Distinct secs := by simpa [wfOp] using hwf
@@ -281,6 +283,8 @@ theorem good_step {adj nar : Dir → Dir → Dir} (hadj : AdjOK adj) (hn : ∀ d
     · rw [if_neg hs]; exact hg
   | remoteAnswer secs =>
     simp only [stepWith]
+    split
+    · exact hg
     by_cases hs : s.sig = .haveLocalOffer
     · rw [if_pos hs]; exact ⟨hg.log, by simp⟩
     · rw [if_neg hs]; exact hg
@@ -401,8 +405,13 @@ theorem C08_direction_legal_after_remote_offer (ops : List Op) (secs : List Sec)
     (hd : Distinct secs) (hs : (run {} ops).sig = .stable) :
     Ready secs (step (run {} ops) (.remoteOffer secs)).1.trs := by
   simp only [step, stepWith]
-  rw [if_pos hs]
-  exact srd_ready adjust_ok _ secs hd
+  by_cases he : secs.isEmpty = true
+  · rw [if_pos he]
+    intro sec hsec
+    simp only [List.isEmpty_iff] at he
+    subst he; cases hsec
+  · rw [if_neg he, if_pos hs]
+    exact srd_ready adjust_ok _ secs hd
 
 /-- the repaired switch, row by row: every local direction is mapped to a legal answer; `Stop()` handles the
     inactive row -/
@@ -471,6 +480,8 @@ theorem goodR_step (s : Pc) (o : Op) (hwf : wfOp o = true)
     | some t => exact fun hs => absurd hs hne
   | remoteOffer secs =>
     simp only [step, stepWith]
+    split
+    · exact hg
     by_cases hs : s.sig = .stable
     · rw [if_pos hs]
       have hd : Distinct secs := by simpa [wfOp] using hwf
@@ -507,6 +518,8 @@ theorem goodR_step (s : Pc) (o : Op) (hwf : wfOp o = true)
     · rw [if_neg hs]; exact hg
   | remoteAnswer secs =>
     simp only [step, stepWith]
+    split
+    · exact hg
     by_cases hs : s.sig = .haveLocalOffer
     · rw [if_pos hs]; intro h; simp at h
     · rw [if_neg hs]; exact hg
